@@ -178,6 +178,27 @@ def shaperef_examples():
     assert "".join(k for k, _ in H.equivalent("polyline", {"points": [(0, 0)]})) == "M"
 
 
+@check
+def viewportref_examples():
+    from .ref import viewportref as V
+
+    # SVG 1.1 7.8 example: viewBox 0 0 1500 1000 in a 300 x 200 viewport, none -> scale(0.2)
+    assert near(V.transform(0, 0, 300, 200, (0, 0, 1500, 1000), ("none", None)), (0.2, 0, 0, 0.2, 0, 0))
+    # preserveAspectRatio examples of SVG 1.1 7.8 (figure): a 30x40 smiley viewBox in a 50x30 viewport
+    vb = (0, 0, 30, 40)
+    assert near(V.transform(0, 0, 50, 30, vb, ("xMinYMin", "meet")), (0.75, 0, 0, 0.75, 0, 0))
+    assert near(V.transform(0, 0, 50, 30, vb, ("xMidYMid", "meet")), (0.75, 0, 0, 0.75, (50 - 22.5) / 2, 0))
+    assert near(V.transform(0, 0, 50, 30, vb, ("xMaxYMax", "meet")), (0.75, 0, 0, 0.75, 50 - 22.5, 0))
+    s = 50 / 30.0
+    assert near(V.transform(0, 0, 50, 30, vb, ("xMinYMid", "slice")), (s, 0, 0, s, 0, (30 - 40 * s) / 2))
+    assert near(V.transform(0, 0, 50, 30, vb, ("xMinYMax", "slice")), (s, 0, 0, s, 0, 30 - 40 * s))
+    assert near(V.transform(0, 0, 50, 30, vb, None), V.transform(0, 0, 50, 30, vb, ("xMidYMid", "meet")))
+    # the viewBox origin maps to the viewport origin (minus alignment)
+    assert near(V.transform(10, 20, 100, 100, (-50, -20, 100, 100), ("xMinYMin", "meet")), (1, 0, 0, 1, 60, 40))
+    assert V.transform(0, 0, 10, 10, None) == (1.0, 0.0, 0.0, 1.0, 0.0, 0.0)
+    assert V.transform(0, 0, 10, 10, (0, 0, 0, 5)) is None and len(V.ALIGNS) == 10
+
+
 def main():
     failed = 0
     for f in CHECKS:
